@@ -447,8 +447,8 @@ func oracle(c Case) vkit.Outcome {
 }
 
 func gen(t *rapid.T) Case {
-	// 3 of 4 cases exercise a table entry, 1 of 4 a round trip / sort / format check
-	if rapid.IntRange(0, 3).Draw(t, "kind") == 0 {
+	// half of the cases exercise a table entry, half a round trip / sort / format check
+	if rapid.IntRange(0, 1).Draw(t, "kind") == 0 {
 		n := rapid.SampledFrom(specialNames).Draw(t, "special")
 		return specials[n].gen(t)
 	}
@@ -552,7 +552,7 @@ func metaCheck() map[string]any {
 		"meta_declared_but_unclassified":             unclassified,
 		"meta_in_table_but_not_declared":             missing,
 		"meta_declaration_differs_from_go_signature": sigDiffers,
-		"meta_table_size":                            len(mirrors),
+		"meta_table_size":                            fmt.Sprint(len(mirrors)),
 	}
 }
 
